@@ -134,6 +134,9 @@ func (obj *SparseFloat32Vector) SET(x *SparseFloat32Vector) {
   }
 }
 func (obj *SparseFloat32Vector) SLICE(i, j int) *SparseFloat32Vector {
+  if i < 0 || j < i || j > obj.n {
+    panic("index out of bounds")
+  }
   r := nilSparseFloat32Vector(j-i)
   for it := obj.indexIteratorFrom(i); it.Ok(); it.Next() {
     if it.Get() >= j {
